@@ -14,7 +14,7 @@ import (
 
 func c18Run(c *runner.Ctx) {
 	r := c.R
-	w, err := gen.GenWorld(r, c.TmpDir, fmt.Sprintf("w%d", c.Idx), gen.WorldOpts{MaxDocs: 140, Jumbo: c.Idx == 0})
+	w, err := gen.GenWorld(r, c.TmpDir, fmt.Sprintf("w%d", c.Idx), gen.WorldOpts{MaxDocs: 140, Jumbo: c.Idx%150 == 0})
 	if err != nil {
 		c.Note("world construction failed (C01/C02/C04's business): " + firstLine(err.Error()))
 		return
@@ -133,7 +133,7 @@ func init() {
 		Rule: "cases = worlds; per segment 40 PRNG lists of 0..20 (field, term) pairs mixing present terms (1-hit and general), repeated entries, absent terms, unknown fields (first/middle/last/only, empty field name) and field switches; oracle = result bitmap == union computed from the specification, no error, no panic; " +
 			"non-trivial = list mixing >=2 entry kinds with a non-empty expected result; distinct by (list, segment kind/size, expected set)",
 		Assumptions: InputContract,
-		Phases:      []runner.Phase{{Name: "union", Cases: cases(150, 4000), Run: c18Run}},
+		Phases:      []runner.Phase{{Name: "union", Cases: cases(1500, 40000), Run: c18Run}},
 		Floors: func(string) map[string]int64 {
 			return map[string]int64{"lists_with.unknown-field-first": 100, "lists_with.unknown-field-last": 100, "lists_with.field-switch": 1000}
 		},
